@@ -484,6 +484,8 @@ structure RWEntry (n : Node) (idx sub : Nat) (t : Option Nat) : Prop where
   found : ∃ obj, findObject n (some idx) (some sub) = .ok obj ∧ obj.dtype = t ∧
     accReadable obj.access = true ∧ accWritable obj.access = true
   nocb : lookup (idx, sub) n.readCb = none
+  /-- no application write callback refuses downloads to it -/
+  norefuse : lookup (idx, sub) n.refuse = none
 
 theorem setData_accepts (n : Node) (idx sub : Nat) (t : Option Nat) (data : Bytes) (h : RWEntry n idx sub t)
     (hlen : isNumberType t = true → 8 * data.length = bitLen t) :
@@ -494,8 +496,8 @@ theorem setData_accepts (n : Node) (idx sub : Nat) (t : Option Nat) (data : Byte
   rw [hf]
   simp only [hw, Bool.not_true, Bool.and_false, Bool.false_eq_true, if_false, ht]
   by_cases hn : isNumberType t = true
-  · simp [hn, hlen hn]
-  · simp [hn]
+  · simp [hn, hlen hn, h.norefuse]
+  · simp [hn, h.norefuse]
 
 theorem getData_stored (n : Node) (idx sub : Nat) (t : Option Nat) (data : Bytes) (chk : Bool)
     (h : RWEntry n idx sub t) :
@@ -788,7 +790,7 @@ theorem channel_isolation (bus : Bus2) (hne : bus.idA ≠ bus.idB) (fs : List (N
 def exNode : Node :=
   { od := [(0x2000, .var ⟨some INTEGER16, 0, none, none⟩)], store := [], readCb := [], writeLog := [] }
 
-example : RWEntry exNode 0x2000 0 (some INTEGER16) := ⟨⟨_, rfl, rfl, rfl, rfl⟩, rfl⟩
+example : RWEntry exNode 0x2000 0 (some INTEGER16) := ⟨⟨_, rfl, rfl, rfl, rfl⟩, rfl, rfl⟩
 example : (INTEGER16, 16, true) ∈ C04.intTypes ∧ inRange 16 true (-5) = true := by decide
 
 end Canopen.C03
